@@ -422,6 +422,8 @@ def run(chk, repo, tier):
     chk.rule("C10.R2", "simplified SWU per path vs RFC 9380 §6.6.2 (F.2), incl. exceptional case; sqrt-of-ratio helpers sound and complete", 8 + 20)
     chk.rule("C10.R3", "sign rule sgn0(y) = sgn0(t) on the affine root; sgn0 is RFC 9380 §4.1 (C14.R2)", 2 + 20 + 6)
     chk.rule("C10.R4", "isogeny code = rational map of the coefficient tables; the tables define maps E' → E", 4)
+    chk.rule("C10.R6", "field arithmetic under the map: operators of optimized_bls12_381_FQ / FQ2 are the quotient-ring operations on "
+                       "canonical residues and == is exact (C08 re-stated for these two classes)", 30)
     chk.rule("C10.R5", "suite constants: A', B', Z as in RFC 9380 §8.8; Z non-square; exponents equal their names", 4)
     chk.not_decided += ["Fermat's little theorem in F_p and F_p² (axiom: turns the large powers into roots of unity)",
                         "g(x) ≠ 0 for every x in the field (E' has odd order — it is isogenous to E — so no point with y = 0)",
@@ -485,6 +487,13 @@ def run(chk, repo, tier):
     C14.sgn0_obligations(sub, repo, World(repo))
     for rule, construct, key, ok, detail, where in sub.obs:
         chk.ob("C10.R3", construct, f"sgn0 [{rule}] {key}", ok, detail, where)
+    # the map is evaluated as ring arithmetic with exact == 0 tests: that is what C08 establishes for the two field classes it runs
+    # on (canonical storage, operators, equality) — re-stated for optimized_bls12_381_FQ / FQ2
+    from ..fieldcheck import FieldSubject, run_fq, run_fqp
+    for q in ("py_ecc.fields.optimized_bls12_381_FQ", "py_ecc.fields.optimized_bls12_381_FQ2"):
+        S = FieldSubject(w, repo.cls(q))
+        for key, ok, det, where in (run_fq(S) if S.kind == "FQ" else run_fqp(S)):
+            chk.ob("C10.R6", q, f"[C08] {key}", ok, det, where)
     chk.note_analysed(swu_paths=npaths)
 
 
